@@ -617,7 +617,7 @@ MANIFEST = {
     "text": "Static typestate over the tree editors: on every exit of add/remove/the four list setters/the parent setter/rec_obj_remover - "
             "including exceptional edges of callees that can raise - no parent link is half-made and the typed views are refreshed; tree "
             "attributes are written nowhere else; the cycle test precedes parent assignment. Decides that each single edit keeps the forest "
-            "consistent whether it returns or raises (hence any history of edits does), not value-level ordering of the flattenings. Round 3: the typed flattenings share the traversal of children_all (E5) and a positional slice of _children does not discharge cleared parent links. Rounds 4-5: no level-by-level flattening from typed views (E5b); the cycle test is reached under the type test only (E3).",
+            "consistent whether it returns or raises (hence any history of edits does), not value-level ordering of the flattenings. Round 3: the typed flattenings share the traversal of children_all (E5) and a positional slice of _children does not discharge cleared parent links. Rounds 4-5: no level-by-level flattening from typed views (E5b); the cycle test is reached under the type test only (E3). Rounds 6-7: the view refresh stores all three views on every path (E6); a parent link is cleared only for direct members or under the unlisting helper (E7).",
     "design_ref": "DESIGN.md §3 C11",
     "note": "Trusted: python ast; callee summaries for Collection.add/remove (both are themselves checked editors); list operations and isinstance assumed not to raise.",
     "technique": "static analysis: typestate over a structured CFG with exceptional exits + who-may-write query",
